@@ -28,6 +28,12 @@ RULE = ('a case = an initial Loop tree (depth <= 3, <= 3 children per node, coun
         'Round 2: forest histories - the harness keeps references to nodes (hold), removes them from the program in '
         'every way the API offers (slice / int assignment, unroll, merge, cleanup, reversed slice) and then edits the '
         'held node; the program and every held subtree outside it are observed after every step.  '
+        'Round 3: deterministic families for input classes the older generators could not produce - a child replaced by '
+        'a distinct but structurally EQUAL tree (8 ways) and then edited; the merged / cleaned / unrolled-away child edited '
+        '(12 edits); held nodes THEMSELVES handed back (permutations, moves, one object at two places, a node below itself: '
+        'cyclic structures cut the history); held copies with every new_parent form edited and inserted; encapsulate on '
+        'nodes with count 0/2/3/volatile after duration reads; flatten_and_balance depth 0..4 and add_measurements - plus '
+        'a random stream over the whole forest alphabet.  check_spec also evaluates the invariant on every held tree.  '
         'Non-trivial = history with >= 2 effective (non-query, non-raising) edits and >= 1 duration query before an edit; '
         'distinct = distinct canonical JSON of the case.')
 TRUSTED = [
@@ -41,8 +47,10 @@ TRUSTED = [
     'observing does not populate caches), exact rational conversion, Gallina printers',
 ]
 ASSUMPTIONS = [
-    'values inserted into a tree are freshly built Loop objects or fresh copies (no aliasing of one Loop object under '
-    'two parents, no cycles)',
+    'theorems: values inserted into a tree are freshly built Loop objects, fresh copies or kept old children of the same '
+    'node; the correspondence also hands held nodes back (aliasing / cycles / failed assignments are generated, the model '
+    'follows the code there, the property fails: known findings aliased-insert, failed-assignment-reparents, '
+    'floating-copy-explicit-parent)',
     'Node.debug is off',
     'repetition counts stay small (<= a few thousand after merges)',
 ]
@@ -1176,24 +1184,28 @@ MANIFEST = {
     'level_text': 'Proof: heap model of the concrete Loop/Node object state with every public editing operation as a heap '
                   'transformer.  Proved for all heaps, nodes and arguments (unbounded, by induction; no axioms): every '
                   'constructed tree satisfies the invariant (cached duration = recomputed, recorded position = position, '
-                  'parent = lister); one step and hence EVERY FINITE HISTORY over the whole operation alphabet preserves it '
-                  '(C09_step / C09_history): append_child (incremental cache patch), __setitem__ with an int and with a '
-                  'simple slice (renumbering loops, detaching of replaced children), setters, memoising queries, unroll, '
-                  'unroll_children, split_one_child, encapsulate, merge, cleanup (recursive), reverse_inplace (recursive; '
-                  'duration invariant under list reversal), roll_constant_waveforms, copies, ==; every slice form incl. '
-                  'extended slices with any step - inside the argument domain guard_C09_args: minimal_waveform_quanta >= 1.  '
-                  'Loop.__eq__ reads structure/counts/waveforms/measurements only and answers true exactly for '
-                  'structurally equal subtrees.  Fuel: depth < heap size proved, the fueled primitives are total, histories '
-                  'over setters/queries need no assumption.  NOT proved: absence of fuel/dangling outcomes for the '
-                  'structural operations (C09_history_total_statement; hypothesis run_ok), operations on nodes that dropped '
-                  'out of the program (C09_forest_statement) - modelled and checked step by step against the code '
-                  '(check_corr) and against the invariant evaluated on the real objects (check_spec).',
+                  'parent = lister); one step and hence EVERY FINITE HISTORY over the 20-operation alphabet preserves it '
+                  '(C09_step / C09_history): append_child (incremental cache patch), __setitem__ with an int and with every '
+                  'slice form (renumbering loops, detaching of replaced children), setters, memoising queries, unroll, '
+                  'unroll_children, split_one_child, encapsulate, merge (incl. the emptying of the merged child, repair of '
+                  'round 3), cleanup (recursive), reverse_inplace, roll_constant_waveforms, copies, == - inside '
+                  'guard_C09_args: minimal_waveform_quanta >= 1; add_measurements (round 3).  Loop.__eq__ reads '
+                  'structure/counts/waveforms/measurements only and answers true exactly for structurally equal subtrees.  '
+                  'Fuel: depth < heap size proved, the fueled primitives are total, histories over setters/queries need no '
+                  'assumption.  The round-2 forest statement is proved FALSE for held copies with an explicit parent '
+                  '(C09_forest_r2_refuted) and restated under guard_C09_forest.  NOT proved: absence of fuel/dangling '
+                  'outcomes for the structural operations (C09_history_total_statement), flatten_and_balance, operations on '
+                  'nodes that dropped out of the program (C09_forest_statement) - modelled and checked step by step against '
+                  'the code (check_corr) and against the invariant evaluated on the real objects of the program and of '
+                  'every held tree (check_spec).',
     'level_note': 'Trusted: Coq kernel + vm_compute; the hand-written model (tied to /repo by correspondence only, no '
-                  'translator); abstract waveforms; parent weak references as plain ids (objects kept alive); inserted '
-                  'values are fresh objects; fuel exhaustion / dangling ids excluded by hypothesis for the structural '
-                  'operations (proved impossible for the primitives, setters and queries); '
-                  'Prop-level Inv and the boolean check_spec are the same clauses by inspection only; for '
-                  'minimal_waveform_quanta <= 0 the model does not follow the code; harness observation code.',
-    'technique': 'Coq proof over a heap model + step-by-step correspondence check on operation histories',
+                  'translator); abstract waveforms; parent weak references as plain ids (objects kept alive); theorems '
+                  'assume inserted values are fresh or kept children (aliased / failed / floating insertions are known '
+                  'findings, model follows the code); fuel exhaustion / dangling ids excluded by hypothesis for the '
+                  'structural operations; Prop-level Inv and the boolean check_spec are the same clauses by inspection '
+                  'only (I1 linked by C09_reported_is_recomputed); for minimal_waveform_quanta <= 0 the model does not '
+                  'follow the code; make_compatible and shared measurement-list objects not modelled; harness '
+                  'observation and classification code.',
+    'technique': 'Coq proof over a heap model + step-by-step correspondence check on operation histories and forests',
     'design_ref': 'DESIGN.md §5 C09, §4.5; notes/C09.md',
 }
